@@ -90,23 +90,6 @@ pub(crate) mod k {
         let p = Cell::new(c.0, c.1).absolute_position(crate::buffer::CellGrid::point(i as usize, j as usize)).scale(scale);
         assert!(p.x >= 0.0 && p.y >= 0.0 && p.x <= w - scale && p.y <= h - 2.0 * scale, "inside the canvas with one cell of margin");
     }
-
-    /// C17: the cell filter - a character becomes a cell iff it is neither NUL nor whitespace,
-    /// for every char (the predicate `From<StringBuffer>` applies)
-    #[kani::proof]
-    pub(crate) fn check_blank_filter_all_chars() {
-        let ch: char = kani::any();
-        kani::cover!(true);
-        let is_cell = ch != '\0' && !ch.is_whitespace();
-        // every blank the statement names is filtered
-        if matches!(ch, ' ' | '\t' | '\r' | '\n' | '\0') {
-            assert!(!is_cell, "space, tab, CR, LF and the NUL filler never become cells");
-        }
-        // and nothing with a drawing or label meaning is
-        if ch.is_ascii_graphic() {
-            assert!(is_cell, "every visible ASCII character becomes a cell");
-        }
-    }
 }
 
 // ------------------------------------------------------------------------------------------
@@ -902,6 +885,38 @@ pub(crate) mod b {
             println!("BOUNDED-WITNESS box with the quoted text {{a}}: {} text element(s), rect {:?}", got.matches("<text").count(), rect);
             panic!("quoted text is emitted verbatim and changes nothing outside of it");
         }
+    }
+
+    /// the cell filter of `From<StringBuffer> for CellBuffer`, driven through the real conversion for every Unicode
+    /// scalar value: a character becomes a cell (in column 1, after the 'x' in front of it) iff it is neither NUL,
+    /// nor white space, nor a double quote; nothing else on the row is disturbed
+    #[test]
+    fn bounded_cell_filter_all_chars() {
+        let mut n = 0u64;
+        for code in 0..=0x10ffffu32 {
+            let ch = match char::from_u32(code) {
+                Some(c) => c,
+                None => continue,
+            };
+            if ch == '"' || ch == '\n' || ch == '\r' {
+                continue; // quotes are C15's business (escape_line), line ends are the string buffer's (T6)
+            }
+            let text: String = ['x', ch, 'y'].iter().collect();
+            let cb = CellBuffer::from(text.as_str());
+            let got: Vec<(Cell, char)> = cb.iter().map(|(c, k)| (*c, *k)).collect();
+            let wide = unicode_width::UnicodeWidthChar::width(ch).unwrap_or(1).max(1) as i32;
+            let mut want = vec![(Cell::new(0, 0), 'x')];
+            if ch != '\0' && !ch.is_whitespace() {
+                want.push((Cell::new(1, 0), ch));
+            }
+            want.push((Cell::new(1 + wide, 0), 'y'));
+            if got != want {
+                println!("BOUNDED-WITNESS row x U+{:04X} y: cells {:?}, want {:?}", code, got, want);
+                panic!("blanks never become cells, everything else does, in its own column");
+            }
+            n += 1;
+        }
+        println!("BOUNDED-CASES {}", n);
     }
 
     /// WITNESS of a known finding (C11): whether a tag next to the right border styles its box depends on the
